@@ -1,5 +1,6 @@
-(* C10 — well-formed relationship fields are read exactly as written (lossless reader).
-   Statements only; proofs in proofs/RelGrammarLexP.v, RelGrammarParseP.v, RelGrammarAccP.v.
+(* C10 — well-formed relationship fields are read exactly as written, by both readers.
+   Statements only; proofs in proofs/RelGrammarLexP.v, RelGrammarParseP.v, RelGrammarAccP.v (lossless
+   reader, sections 1-7) and proofs/RelGrammarLossyP.v (lossy reader, section 8).
 
    The quantifier is RelGrammar.rfield restricted by RelGrammar.wf_rfield: the Debian Policy 7.1
    relationship grammar over arbitrary package names / versions / architecture / profile names
@@ -17,7 +18,7 @@
    C10_prefix_space_refuted and C10_prefix_arch_negation_refuted below. *)
 From V.model Require Import Base RelLex RelParse RelAcc RelGrammar.
 From V.model Require RelParsePre RelLossy.
-From V.proofs Require Import RelGrammarLexP RelGrammarParseP RelGrammarAccP.
+From V.proofs Require Import RelGrammarLexP RelGrammarParseP RelGrammarAccP RelGrammarLossyP.
 
 (* 1. the token partition of a rendered well-formed field *)
 Theorem C10_lex : forall allow (f : rfield), wf_rfield allow f = true -> rlex (rrender f) = Ok (rtoks f).
@@ -135,58 +136,118 @@ Check C10_prefix_space_refuted :
             RelParse.parse (rrender C10_space_witness) false = Ok (rtree_of C10_space_witness, 0).
 Print Assumptions C10_prefix_space_refuted.
 
-(* 8. The lossy-reader clause.  It is stated in full over any model of lossy::Relations::from_str
-   whose relations have the shape of lossy::Relation (= RelAcc.relc: name, archqual, version,
-   architectures as Strings with "!" for a negated one, profiles), and instantiated with the model
-   of the cone of C14 (coq/model/RelLossy.v, with its model of debversion).  Domain: well-formed
-   fields without substitution variables, newlines only around "," and "|", nothing between ":"
-   and the architecture qualifier (RelGrammar.lossy_dom).
-   NOT proved: C14's theorems are about text printed by Display (one layout); this clause needs the
-   lossy reader evaluated on every whitespace placement, through str::split(',') / trim / a second
-   lexer run per relation -- a development of the size of RelGrammarParseP.v.  It is decided on
-   every run by the rel-doc stream (oracle: lossy value = lossless accessors, on the
-   implementation; zero failures since /repo a2c6991, 7cd890b, 3e262bf), and C10_lossy_ex checks the
-   instance on concrete fields.  (RelLossy.v as merged does not yet contain /repo 3e262bf: on
-   "a (= 1 )" it yields Err 4 where the code now accepts; the examples avoid that slot.) *)
+(* 8. The lossy-reader clause: the lossy reader accepts the same fields and yields the same
+   structure.  The lossy reader is the model of the cone of C14 (coq/model/RelLossy.v:
+   lossy::Relations::from_str with str::split / trim, a lexer run per relation, the hand-written
+   token reader, and C14's model of debversion); [lossy_model] shows its value in the accessors'
+   type RelAcc.relc (name, archqual, version as (operator, Display text), architectures as Strings
+   with "!" for a negated one, profiles) -- proofs/RelGrammarLossyP.v.
+   Domain: well-formed fields without substitution variables (wf_rfield false) in RelGrammar.lossy_dom:
+   no LF in the whitespace INSIDE a relation (LF is free in front of the field, after "," and "|"
+   and after a relation), nothing between ":" and the architecture qualifier.  Each restriction is
+   necessary (C10_lossy_dom_needed). *)
 Definition C10_lossy_full (lossy_relations_from_str : str -> res (list (list relc))) : Prop :=
   forall f : rfield, wf_rfield false f = true -> lossy_dom f = true ->
   exists es, lossy_relations_from_str (rrender f) = Ok es /\ map (map relc_view) es = fst (rcontent f).
-
-Definition vop_of_vc (c : RelLossy.vconstraint) : vop :=
-  match c with RelLossy.VC_ge => VGe | RelLossy.VC_le => VLe | RelLossy.VC_eq => VEq | RelLossy.VC_gt => VGt | RelLossy.VC_lt => VLt end.
-Definition bprofile_of_lossy (p : RelLossy.bprofile) : bprofile :=
-  match p with RelLossy.Enabled s => Enabled s | RelLossy.Disabled s => Disabled s end.
-Definition relc_of_lossy (r : RelLossy.relation RelLossy.dversion) : relc :=
-  mk_relc (RelLossy.r_name r) (RelLossy.r_archqual r)
-          (option_map (fun cv => (vop_of_vc (fst cv), RelLossy.dv_print (snd cv))) (RelLossy.r_version r))
-          (RelLossy.r_archs r) (map (map bprofile_of_lossy) (RelLossy.r_profiles r)).
-Definition lossy_model (s : str) : res (list (list relc)) :=
-  rmap (map (map relc_of_lossy)) (RelLossy.relations_from_str RelLossy.dv_parse s).
 Definition C10_lossy_RelLossy : Prop := C10_lossy_full lossy_model.
 
-(* the instance on two concrete fields:
-   "a (= 0:1)\n | b [!x y],\n"  and  "libc6:any (>= 1:2.0~rc1-1) [amd64 i386] <!nocheck> < cross !nocheck >\t, g++ (<< 4.9),," *)
+(* the exact value: the content in the accessors' type; read back as content it IS the content *)
+Theorem C10_lossy : forall f : rfield, wf_rfield false f = true -> lossy_dom f = true ->
+  lossy_model (rrender f) = Ok (fst (rcontent_acc f)) /\
+  map (map relc_view) (fst (rcontent_acc f)) = fst (rcontent f).
+Proof. exact C10_lossy_all. Qed.
+Check C10_lossy : forall f : rfield, wf_rfield false f = true -> lossy_dom f = true ->
+  lossy_model (rrender f) = Ok (fst (rcontent_acc f)) /\
+  map (map relc_view) (fst (rcontent_acc f)) = fst (rcontent f).
+Print Assumptions C10_lossy.
+
+Theorem C10_lossy_full_holds : C10_lossy_RelLossy.
+Proof. intros f Hwf Hdom. destruct (C10_lossy_all f Hwf Hdom) as [A B]. exists (fst (rcontent_acc f)). split; assumption. Qed.
+Check C10_lossy_full_holds : C10_lossy_full lossy_model.
+Print Assumptions C10_lossy_full_holds.
+
+(* the same structure as the lossless accessors report for the same text *)
+Theorem C10_lossy_agrees_with_lossless : forall f : rfield, wf_rfield false f = true -> lossy_dom f = true ->
+  exists a, relations_from_str (rrender f) = Ok (rtree_of f) /\ racc (rtree_of f) = Ok a /\
+            lossy_model (rrender f) = Ok (fst a).
+Proof.
+  intros f Hwf Hdom. exists (rcontent_acc f). split; [apply C10_from_str, Hwf|].
+  split; [apply (C10_lossless false f Hwf)|apply (C10_lossy_all f Hwf Hdom)].
+Qed.
+Check C10_lossy_agrees_with_lossless : forall f : rfield, wf_rfield false f = true -> lossy_dom f = true ->
+  exists a, relations_from_str (rrender f) = Ok (rtree_of f) /\ racc (rtree_of f) = Ok a /\
+            lossy_model (rrender f) = Ok (fst a).
+Print Assumptions C10_lossy_agrees_with_lossless.
+
+(* the value of the lossy model itself (lossy::Relation values with C14's dversion) *)
+Theorem C10_lossy_value : forall f : rfield, wf_rfield false f = true -> lossy_dom f = true ->
+  RelLossy.relations_from_str RelLossy.dv_parse (rrender f) = Ok (lossy_field f).
+Proof. exact lossy_rrender. Qed.
+Check C10_lossy_value : forall f : rfield, wf_rfield false f = true -> lossy_dom f = true ->
+  RelLossy.relations_from_str RelLossy.dv_parse (rrender f) = Ok (lossy_field f).
+Print Assumptions C10_lossy_value.
+
+(* every restriction of lossy_dom is necessary: one well-formed field per whitespace slot inside
+   a relation with an LF in it (and one with a space after the ":" of a qualifier); the lossless
+   reader reads each of them (C10_lossless), the lossy reader rejects each:
+   "a\n:b" "a: b" "a\n(= 1)" "a (\n= 1)" "a (=\n1)" "a (= 1\n)" "a\n[b]" "a [\nb]" "a [b\n]" "a\n<b>" "a <\nb>" "a <b\n>" *)
+Definition C10_lossy_dom_witnesses : list rfield :=
+  let nl := [10%N] in let sp := [32%N] in let a := [97%N] in let b := [98%N] in let one := [49%N] in
+  let mk q v ar ps := mk_rfield [] (IEntry (mk_rel a q v ar ps []) []) [] in
+  let vc w0 w1 w2 w3 := Some (mk_vclause w0 w1 VEq w2 None one [] w3) in
+  let gr w0 wt w1 := mk_group w0 [mk_term wt false b] w1 in
+  [ mk (Some (mk_qual nl [] b)) None None [];  mk (Some (mk_qual [] sp b)) None None [];
+    mk None (vc nl [] sp []) None [];  mk None (vc sp nl sp []) None [];  mk None (vc sp [] nl []) None [];
+    mk None (vc sp [] sp nl) None [];
+    mk None None (Some (gr nl [] [])) [];  mk None None (Some (gr sp nl [])) [];  mk None None (Some (gr sp [] nl)) [];
+    mk None None None [gr nl [] []];  mk None None None [gr sp nl []];  mk None None None [gr sp [] nl] ].
+Theorem C10_lossy_dom_needed :
+  length C10_lossy_dom_witnesses = 12 /\
+  Forall (fun f => wf_rfield false f = true /\ lossy_dom f = false /\
+                   (exists e, lossy_model (rrender f) = Err e) /\
+                   relations_from_str (rrender f) = Ok (rtree_of f)) C10_lossy_dom_witnesses.
+Proof.
+  split; [reflexivity|].
+  repeat (constructor; [split; [reflexivity|]; split; [reflexivity|]; split; [eexists; vm_compute; reflexivity|vm_compute; reflexivity]|]).
+  constructor.
+Qed.
+Check C10_lossy_dom_needed :
+  length C10_lossy_dom_witnesses = 12 /\
+  Forall (fun f => wf_rfield false f = true /\ lossy_dom f = false /\
+                   (exists e, lossy_model (rrender f) = Err e) /\
+                   relations_from_str (rrender f) = Ok (rtree_of f)) C10_lossy_dom_witnesses.
+Print Assumptions C10_lossy_dom_needed.
+
+(* non-vacuity of the lossy clause: every optional part, odd whitespace (tabs, runs of blanks, LF
+   with indentation around "," and "|"), an epoch with further colons, negated terms:
+   "a (= 0:1)\n | b [!x y],\n"  and
+   "\n libc6 \t:any\t(  >=\t1:2.0~rc1-1:x )  [ amd64\t\ti386 ] <!nocheck>\t< cross  !nocheck >\t\n,\n  g++ (<< 4.9)\n |\n\tc,," *)
 Definition C10_lossy_ex1 : rfield :=
   mk_rfield [] (IEntry (mk_rel [97%N] None (Some (mk_vclause [32%N] [] VEq [32%N] (Some [48%N]) [49%N] [] [])) None [] [10; 32]%N)
                        [([32%N], mk_rel [98%N] None None (Some (mk_group [32%N] [mk_term [] true [120%N]; mk_term [32%N] false [121%N]] [])) [] [])])
             [([10%N], IEmpty)].
 Definition C10_lossy_ex2 : rfield :=
-  let sp := [32%N] in
+  let sp := [32%N] in let tb := [9%N] in
   let libc := [108; 105; 98; 99; 54]%N in let gpp := [103; 43; 43]%N in let any := [97; 110; 121]%N in
   let amd := [97; 109; 100; 54; 52]%N in let i386 := [105; 51; 56; 54]%N in
   let nocheck := [110; 111; 99; 104; 101; 99; 107]%N in let cross := [99; 114; 111; 115; 115]%N in
-  let r1 := mk_rel libc (Some (mk_qual [] [] any))
-                   (Some (mk_vclause sp [] VGe sp (Some [49%N]) [50; 46; 48; 126; 114; 99; 49; 45; 49]%N [] []))
-                   (Some (mk_group sp [mk_term [] false amd; mk_term sp false i386] []))
-                   [mk_group sp [mk_term [] true nocheck] []; mk_group sp [mk_term sp false cross; mk_term sp true nocheck] sp] [9%N] in
-  let r2 := mk_rel gpp None (Some (mk_vclause sp [] VLt sp None [52; 46; 57]%N [] [])) None [] [] in
-  mk_rfield [] (IEntry r1 []) [(sp, IEntry r2 []); ([], IEmpty); ([], IEmpty)].
+  let r1 := mk_rel libc (Some (mk_qual [32; 9]%N [] any))
+                   (Some (mk_vclause tb [32; 32]%N VGe tb (Some [49%N]) [50; 46; 48; 126; 114; 99; 49; 45; 49]%N [[120%N]] sp))
+                   (Some (mk_group [32; 32]%N [mk_term sp false amd; mk_term [9; 9]%N false i386] sp))
+                   [mk_group sp [mk_term [] true nocheck] []; mk_group tb [mk_term sp false cross; mk_term [32; 32]%N true nocheck] sp] [9; 10]%N in
+  let r2 := mk_rel gpp None (Some (mk_vclause sp [] VLt sp None [52; 46; 57]%N [] [])) None [] [10; 32]%N in
+  let r3 := mk_rel [99%N] None None None [] [] in
+  mk_rfield [10; 32]%N (IEntry r1 []) [([10; 32; 32]%N, IEntry r2 [([10; 9]%N, r3)]); ([], IEmpty); ([], IEmpty)].
 Example C10_lossy_ex :
   (wf_rfield false C10_lossy_ex1 = true /\ lossy_dom C10_lossy_ex1 = true /\
    exists es, lossy_model (rrender C10_lossy_ex1) = Ok es /\ map (map relc_view) es = fst (rcontent C10_lossy_ex1)) /\
   (wf_rfield false C10_lossy_ex2 = true /\ lossy_dom C10_lossy_ex2 = true /\
-   exists es, lossy_model (rrender C10_lossy_ex2) = Ok es /\ map (map relc_view) es = fst (rcontent C10_lossy_ex2)).
-Proof. split; (split; [reflexivity|]; split; [reflexivity|]; eexists; split; vm_compute; reflexivity). Qed.
+   exists es, lossy_model (rrender C10_lossy_ex2) = Ok es /\ map (map relc_view) es = fst (rcontent C10_lossy_ex2) /\
+              map (map c_name) es = [[[108; 105; 98; 99; 54]]; [[103; 43; 43]; [99]]]%N).
+Proof.
+  split; [split; [reflexivity|]; split; [reflexivity|]; eexists; split; vm_compute; reflexivity|].
+  split; [reflexivity|]. split; [reflexivity|]. eexists. split; [vm_compute; reflexivity|]. split; vm_compute; reflexivity.
+Qed.
 
 (* Non-vacuity: a field using every construct and every whitespace slot is well-formed.
    " libc6:any (>= 1:2.0~rc1-1) [amd64 i386] <!nocheck> < cross\n !nocheck > | g++( <<4.9\n )|\n a : any\n ,\n ${misc:Depends} ,, g++( <<4.9\n )," *)
